@@ -38,7 +38,36 @@ thread_local! {
     static RT: tokio::runtime::Runtime = tokio::runtime::Builder::new_current_thread().enable_all().build().unwrap();
 }
 
-fn processor(c: &Case) -> Processor {
+/// The processor of the *previous deployment*: every rule that has a fallback used to be that fallback
+/// (its key, its algorithm). Cookies it minted are still accepted by `processor(c)` through the fallback.
+pub fn old_processor(c: &Case) -> Processor {
+    let mut pc = ProcessorConfig::default();
+    pc.percent_encode = c.percent_encode;
+    for r in 0..3usize {
+        let names: Vec<String> = (0..4).filter(|n| c.assign[*n] as usize == r + 1).map(|n| NAMES[n].to_string()).collect();
+        if names.is_empty() {
+            continue;
+        }
+        let alg = |enc: bool| if enc { CryptoAlgorithm::Encryption } else { CryptoAlgorithm::Signing };
+        let (key, enc) = if c.rule_fallback[r] { (fixed_key(50 + r as u8), !c.rule_enc[r]) } else { (fixed_key(10 + r as u8), c.rule_enc[r]) };
+        pc.crypto_rules.push(CryptoRule { cookie_names: names, algorithm: alg(enc), key, fallbacks: vec![] });
+    }
+    pc.into()
+}
+
+/// (signs, encrypts) of the session cookie under `old_processor`.
+pub fn old_protection(c: &Case) -> (bool, bool) {
+    let r = c.assign[c.name as usize % 4];
+    if r == 0 {
+        (false, false)
+    } else {
+        let i = (r - 1) as usize;
+        let enc = if c.rule_fallback[i] { !c.rule_enc[i] } else { c.rule_enc[i] };
+        (!enc, enc)
+    }
+}
+
+pub fn processor(c: &Case) -> Processor {
     let mut pc = ProcessorConfig::default();
     pc.percent_encode = c.percent_encode;
     for r in 0..3usize {
@@ -73,7 +102,7 @@ fn ttl_secs(c: &Case) -> u64 {
 }
 
 /// Independent evaluation of the crypto rules for the session cookie name.
-fn protection(c: &Case) -> (bool, bool) {
+pub fn protection(c: &Case) -> (bool, bool) {
     let r = c.assign[c.name as usize % 4];
     if r == 0 {
         (false, false)
@@ -119,7 +148,7 @@ pub fn oracle(c: &Case) -> CaseResult {
     }
 }
 
-fn leaks(debug: &str, id: &str) -> Option<String> {
+pub fn leaks(debug: &str, id: &str) -> Option<String> {
     let simple = id.replace('-', "");
     for form in [id.to_string(), id.to_uppercase(), simple.clone(), simple.to_uppercase()] {
         if debug.contains(&form) {
@@ -129,8 +158,8 @@ fn leaks(debug: &str, id: &str) -> Option<String> {
     None
 }
 
-async fn run(c: &Case) -> CaseResult {
-    let store = crate::stores::make_store(false).await;
+/// Session configuration, cookie processor and cookie name of a case.
+pub fn session_setup(c: &Case) -> (pavex_session::SessionConfig, Processor, &'static str) {
     let mut config = c.cfg.session_config();
     let name = NAMES[c.name as usize % 4];
     config.cookie.name = name.to_string();
@@ -145,7 +174,12 @@ async fn run(c: &Case) -> CaseResult {
     config.cookie.secure = c.secure;
     config.cookie.http_only = c.http_only;
     config.state.ttl = std::time::Duration::from_secs(ttl_secs(c));
-    let processor = processor(c);
+    (config, processor(c), name)
+}
+
+async fn run(c: &Case) -> CaseResult {
+    let store = crate::stores::make_store(false).await;
+    let (config, processor, name) = session_setup(c);
     let (signs, encrypts) = protection(c);
     let mut info = CaseInfo::default();
     if signs != encrypts {
@@ -431,5 +465,11 @@ pub fn main(mut chk: Check) -> ! {
     }
     let n = chk.tier().pick(200_000, 1_000_000);
     chk.run("configs-x-histories", n, case_strategy(), oracle);
+    // second campaign: the same property with a store that fails / loses records on schedule and with
+    // concurrent reads inside a request (see c12_chaos.rs); the oracle reads the client-side state out of
+    // the emitted cookie, no session model involved
+    chk.ev.rule.push_str(" || campaign faulty-store: the same configurations x 1-4 requests of 0-7 operations (incl. two server-side reads polled concurrently) against a store wrapper that fails chosen calls and wipes all records before chosen calls; oracle: cookie attached => signed or encrypted, and encrypted when the cookie's own client-side state is non-empty; finalize error => no session cookie; Debug never shows an id");
+    let n2 = chk.tier().pick(60_000, 400_000);
+    chk.run("faulty-store", n2, crate::c12_chaos::case_strategy(), crate::c12_chaos::oracle);
     chk.finish()
 }
